@@ -75,6 +75,7 @@ fn main() {
             low_quality: false,
             avoid_coincident: kind.is_visual() && (cfg.vis.own_use + cfg.vis.own_collect > 0.0),
             low_conf: rng.chance(0.15),
+            vary_nobj: false,
         };
         let h = HistOpts { len: if cli.small { 2 } else { 4 + rng.usize(7) }, lifecycle_ops: false, clear_wasted: false, auto_waste_ops: false, batches: true, empty_calls: false };
         let ops = gen_history(&mut rng, &w, &h);
